@@ -147,7 +147,7 @@ def parse_file(fname):
             if mf:
                 h.name = mf.group(2)
                 break
-            mi = re.match(r"\s*[a-z_0-9]+_instance!\(\s*([A-Za-z0-9_]+)\s*,", l)
+            mi = re.match(r"\s*[a-z_0-9]+_instance(?:_[a-z]+)?!\(\s*([A-Za-z0-9_]+)\s*,", l)
             if mi:
                 h.name = mi.group(1)
                 break
